@@ -45,6 +45,10 @@ func main() {
 		_ = logging.SetLogLevel("*", "fatal")
 		victim.ServerMain()
 		return
+	case "victim-noctx":
+		_ = logging.SetLogLevel("*", "fatal")
+		victim.NoCtxMain(os.Args[2])
+		return
 	case "victim-client":
 		_ = logging.SetLogLevel("*", "fatal")
 		victim.ClientMain(os.Args[2])
@@ -132,6 +136,9 @@ func main() {
 		}
 		if err == nil {
 			err = stream.SilentLossNoPings(res, *seed)
+		}
+		if err == nil {
+			err = stream.NoContext(res, *seed)
 		}
 		if err == nil {
 			err = corr.SubRegVsSweep(d, res, *seed, "loss")
